@@ -9,6 +9,23 @@ package diskwriter
 //@ -- what the recorder's helpers leave alone: the track's connection and publisher, and the connection's lock (called locked)
 //@ spec keepstrack(t *diskTrack) bool = t.conn == old(t.conn) && t.remote == old(t.remote) && held(t.conn.mu) == old(held(t.conn.mu))
 //@
+//@ -- C19: recordings land in the group's own directory: the recorder's os.Root is opened on the recordings directory joined with the
+//@ -- group's name (a name the group layer has validated), and on nothing else
+//@ func newId
+//@   trusted
+//@   why diskwriter.go: a random identifier (crypto/rand); no effect on program state
+//@   modifies nothing
+//@
+//@ func New
+//@   props C19 C12
+//@   requires nonnil: g != nil
+//@   modifies nothing
+//@   fresh
+//@   ensures made: isnil(result1) ==> result0 != nil && fresh(result0)
+//@   assert at call Join own-dir: len(arg_elem) == 2 && arg_elem[0] == Directory && arg_elem[1] == callresult("Name", 1)
+//@   assert at call MkdirAll own-dir: arg_path == callresult("Join", 1)
+//@   assert at call OpenRoot own-dir: arg_name == callresult("Join", 1)
+//@
 //@ func (*diskTrack).writeRTP
 //@   trusted
 //@   why diskwriter.go: pushes the packet to the sample builder and writes the completed samples (pion samplebuilder, ebml-go: outside the verified code);
